@@ -14,21 +14,44 @@ var Epoch = time.Date(2000, 1, 1, 0, 0, 0, 0, time.UTC)
 // advancing only when every goroutine of the bubble is durably blocked). It
 // returns a description of a panic or bubble deadlock, or "".
 func InBubble(t *testing.T, f func()) (failure string) {
-	defer func() {
-		if r := recover(); r != nil {
-			failure = fmt.Sprintf("bubble: %v", r)
-		}
-	}()
-	synctest.Test(t, func(t *testing.T) {
+	done := make(chan string, 1)
+	go func() {
+		res := ""
 		defer func() {
 			if r := recover(); r != nil {
-				failure = fmt.Sprintf("panic in bubble root: %v", r)
+				res = fmt.Sprintf("bubble: %v", r)
 			}
+			done <- res
 		}()
-		f()
-	})
-	return failure
+		synctest.Test(t, func(t *testing.T) {
+			defer func() {
+				if r := recover(); r != nil {
+					res = fmt.Sprintf("panic in bubble root: %v", r)
+				}
+			}()
+			f()
+		})
+	}()
+	// The bubble sees a deadlock only when every goroutine is blocked on something the simulated clock knows
+	// (channels, timers, pipes). A goroutine waiting for a sync.Mutex that nobody will release is invisible to
+	// it: the bubble then neither ends nor advances. Runs take milliseconds of real time; after RealTimeGuard
+	// the run is declared stalled. The process must not execute further plans afterwards (Stalled).
+	guard := time.NewTimer(RealTimeGuard)
+	defer guard.Stop()
+	select {
+	case failure = <-done:
+		return failure
+	case <-guard.C:
+		Stalled = true
+		return fmt.Sprintf("bubble: deadlock (no progress within %v of real time: a goroutine waits for something that is never released, e.g. a mutex left locked)", RealTimeGuard)
+	}
 }
+
+// RealTimeGuard bounds the real time of one bubble.
+var RealTimeGuard = 150 * time.Second
+
+// Stalled is set when a bubble was abandoned by the real-time guard: its goroutines are still there.
+var Stalled bool
 
 // SimNow returns seconds since Epoch on the current (bubble) clock.
 func SimNow() float64 { return time.Since(Epoch).Seconds() }
